@@ -100,8 +100,23 @@ func main() {
 		orc[a] = oracles(a)
 	}
 
+	// format must be a function of its arguments: a call that throws half-way (JSON.stringify of a circular
+	// object, a toString that throws) is caught by the script and must leave no trace in later calls
+	faults := []string{
+		`try { util.format("partial %j tail", (function(){var o={}; o.o=o; return o})()) } catch (e) {}`,
+		`try { console.warn("state: %j", (function(){var o={}; o.o=o; return o})()) } catch (e) {}`,
+		`try { util.format("a%sb", {toString: function(){ throw new Error("x") }}) } catch (e) {}`,
+		`try { console.log("n=%d", {valueOf: function(){ throw new Error("x") }}) } catch (e) {}`,
+	}
 	nFmt := n * 4 / 5
 	for c := 0; c < n; c++ {
+		if r.Chance(12) {
+			f := r.Pick(faults)
+			if _, err := vm.RunString(f); err != nil {
+				out.Fail(len(out.Cases), "fault-escaped", map[string]string{"script": f, "err": err.Error()})
+			}
+			out.Count("faulting_call_before_case", "yes")
+		}
 		if c < nFmt {
 			f := genFmt(r)
 			na := r.Intn(4)
